@@ -348,8 +348,21 @@ func runCase(sub string) func(c Case) *vk.Failure {
 				}
 			}
 			for _, i := range order {
-				if id := rootCause(op, c, i, fam); id != "" {
-					return vk.Failf("defect/"+id, "[%s.%s/%s] "+format+": %s", append(append([]any{c.Op, slotLabel(i, c.Args[i], c.Recv), fam}, args...), desc())...)
+				// with several aliased operands the one at fault is not
+				// known: the family is expressed relative to each operand.
+				f := fam
+				switch {
+				case c.Args[i].Same && fam == famDisjointReject:
+					f = famIdentityReject
+				case !c.Args[i].Same && fam == famIdentityReject:
+					f = famDisjointReject
+				case c.Args[i].Same && fam == famResultWrong:
+					f = famIdentityWrong
+				case !c.Args[i].Same && fam == famIdentityWrong:
+					f = famResultWrong
+				}
+				if id := rootCause(op, c, i, f); id != "" {
+					return vk.Failf("defect/"+id, "[%s.%s/%s] "+format+": %s", append(append([]any{c.Op, slotLabel(i, c.Args[i], c.Recv), f}, args...), desc())...)
 				}
 			}
 			k := c.Op + "." + label + "/" + fam
